@@ -37,12 +37,16 @@ def poly_close(p, q, rtol=1e-13):
 
 
 def fr(c):
+    if isinstance(c, np.ndarray):
+        c = c.item()           # a coefficient handed over as 0-d array
+    elif isinstance(c, np.generic):
+        c = c.item()
     return Fraction(c) if not isinstance(c, complex) else c
 
 
 def graph_dump(g):
     nodes = tuple(sorted((nid, tuple(n.eids[0]), tuple(n.eids[1]), n.qnum, n.nid) for nid, n in g.nodes.items()))
-    edges = tuple(sorted((eid, tuple(e.nids), tuple(e.opics), e.eid) for eid, e in g.edges.items()))
+    edges = tuple(sorted((eid, tuple(e.nids), tuple((a, b.item()) if isinstance(b, np.ndarray) else (a, b) for a, b in e.opics) if isinstance(e.opics, list) else e.opics, e.eid) for eid, e in g.edges.items()))
     return (nodes, edges, tuple(g.nid_terminal))
 
 
@@ -137,6 +141,20 @@ class CountingCallable:
         return self.table[i]
 
 
+class LazyOps(dict):
+    """An operator map whose stored values are placeholders; the operators exist only through item access."""
+
+    def __init__(self, real):
+        super().__init__({k: None for k in real})
+        self._real = real
+
+    def __getitem__(self, k):
+        return self._real[k]
+
+    def get(self, k, default=None):
+        return self._real.get(k, default)
+
+
 class GRSession(SessionBase):
     world = 'gr'
 
@@ -149,6 +167,7 @@ class GRSession(SessionBase):
         self.K = self.cfg['K']
         self.ch = {int(k): v for k, v in self.cfg['charges'].items()}
         self.idI = int(self.cfg.get('idI', 0))
+        self._coefs = []
         self.d = self.cfg['d']
         self.qd = list(self.cfg['qd'])
         self.charged = any(self.ch.values())
@@ -170,6 +189,28 @@ class GRSession(SessionBase):
             M = np.where(mask, M, 0)
             om[o] = M
         return om
+
+    def coef(self, c, chain=False):
+        """A coefficient in the representation of this session (Python float, numpy scalar, 0-d array owned by the caller).
+        Chain coefficients are never 0-d arrays: the unchanged `from_opchains` accumulates into the first coefficient object
+        of coinciding half-chains (`gamma[edge] += coeff`), i.e. it treats coefficients as immutable numbers (DESIGN 11.5)."""
+        rep = self.cfg.get('coef_rep')
+        if rep is None or isinstance(c, (list, tuple)):
+            return c
+        if rep == 'np' or chain:
+            return np.float64(c)
+        a = np.array(float(c))
+        self._coefs.append((a, float(c)))
+        return a
+
+    def coefs_unchanged(self):
+        for a, v in self._coefs:
+            if float(a) != v:
+                self.check(False, 'C19', 'coefficient_argument_modified', f'a coefficient passed as 0-d array changed from {v!r} to {float(a)!r}')
+                self._coefs = [(x, float(x)) for x, _ in self._coefs]
+                return
+        if self._coefs:
+            self.judged[('C19', 'coefficient_argument_modified')] += 1
 
     # ---- model helpers ------------------------------------------------------------------------
     def live(self):
@@ -342,6 +383,7 @@ class GRSession(SessionBase):
         return snap, res, exc
 
     def bystanders_unchanged(self, snap, except_uids, why='operand_or_bystander_modified', extra_props=()):
+        self.coefs_unchanged()
         for o in self.live():
             if o.uid in except_uids or o.uid not in snap:
                 continue
@@ -389,7 +431,7 @@ class GRSession(SessionBase):
             k = int(mu['which']) % len(chains)
             spec = [dict(c, oids=list(c['oids']), qnums=list(c['qnums'])) for c in spec]
             if mu['what'] == 'coeff' or not self.charged and False:
-                chains[k].coeff = mu['coeff']
+                chains[k].coeff = self.coef(mu['coeff'], chain=True)
                 spec[k]['coeff'] = mu['coeff']
             else:
                 pos = int(mu['pos']) % len(chains[k].oids)
@@ -398,14 +440,14 @@ class GRSession(SessionBase):
                     chains[k].oids[pos] = int(mu['oid'])
                     spec[k]['oids'][pos] = int(mu['oid'])
                 else:
-                    chains[k].coeff = mu['coeff']
+                    chains[k].coeff = self.coef(mu['coeff'], chain=True)
                     spec[k]['coeff'] = mu['coeff']
             self.probe('chain_objects_reused_after_inplace_update')
             store[ridx] = (chains, spec)
         if not any(c['coeff'] != 0 for c in spec):
             return 'skipped'
         if chains is None:
-            chains = [ptn.OpChain(list(c['oids']), list(c['qnums']), c['coeff'], c['istart']) for c in spec]
+            chains = [ptn.OpChain(list(c['oids']), list(c['qnums']), self.coef(c['coeff'], chain=True), c['istart']) for c in spec]
             store.append((chains, spec))
             if len(store) > 4:
                 store.pop(0)
@@ -424,7 +466,7 @@ class GRSession(SessionBase):
         o = self.add_obj(g, want, 'chains')
         self.check_graph(o, want, 'C05', 'from_opchains', L)
         nz = sum(1 for c in spec if c['coeff'] != 0)
-        if len(set(tuple(e.opics) for e in g.edges.values())) < len(g.edges):
+        if len(set(tuple((int(a), complex(np.asarray(b).item())) for a, b in e.opics) for e in g.edges.values())) < len(g.edges):
             self.probe('graph_shared_operators')
         # C20 clause 2: bond dimension at any cut never exceeds the number of chains with non-zero coefficient
         prof, _ = depth_profile(g)
@@ -446,7 +488,7 @@ class GRSession(SessionBase):
         def rec(node):
             if not node['children'] and shared_leaf is not None and node['q'] == 0:
                 return shared_leaf
-            return ptn.OpTreeNode([ptn.OpTreeEdge(e['oid'], e['coeff'], rec(e['node'])) for e in node['children']], node['q'])
+            return ptn.OpTreeNode([ptn.OpTreeEdge(e['oid'], self.coef(e['coeff']), rec(e['node'])) for e in node['children']], node['q'])
         if roots is not None and id(spec['root']) in roots:
             root = roots[id(spec['root'])]
         else:
@@ -520,7 +562,7 @@ class GRSession(SessionBase):
                     self.env.fire('CBBUF')
                 ncall += 1
             else:
-                opics = [(int(a), b) for a, b in opics]
+                opics = [(int(a), self.coef(b)) for a, b in opics]
             active = e.get('active', True)
             if 'active_table' in e:
                 active = CountingCallable(list(e['active_table']), calls, L)
@@ -561,7 +603,7 @@ class GRSession(SessionBase):
             nodes = {nid: ptn.OpGraphNode(nid, [], [], qn[nid]) for lay in spec['layers'] for nid in lay}
             g = ptn.OpGraph(list(nodes.values()), [], [spec['layers'][0][0], spec['layers'][-1][0]])
             for e in spec['edges']:
-                g.add_connect_edge(ptn.OpGraphEdge(e['eid'], list(e['nids']), [(int(a), b) for a, b in e['opics']]))
+                g.add_connect_edge(ptn.OpGraphEdge(e['eid'], list(e['nids']), [(int(a), self.coef(b)) for a, b in e['opics']]))
         except Exception as e:
             self.check(False, 'C16', 'raised', f'building a layered graph through the public constructors: {type(e).__name__}: {e}')
             return 'raised'
@@ -700,7 +742,7 @@ class GRSession(SessionBase):
             if new == cur:
                 return 'skipped'
             return self._rewrite(op, o, lambda: g.rename_node_id(cur, new), dict(o.poly), f'rename_node_id({cur},{new})', expect_exc=ValueError)
-        new = int(op['new'])
+        new = int(op['new']) if not op.get('npid') else np.int64(op['new'])      # ids from np.arange / rng.integers are numpy integers
         if new in g.nodes:
             return self._rewrite(op, o, lambda: g.rename_node_id(cur, new), dict(o.poly), f'rename_node_id({cur},{new})', expect_exc=ValueError)
         if cur in g.nid_terminal:
@@ -767,7 +809,7 @@ class GRSession(SessionBase):
             if new == cur:
                 return 'skipped'
             return self._rewrite(op, o, lambda: g.rename_edge_id(cur, new), dict(o.poly), f'rename_edge_id({cur},{new})', expect_exc=ValueError)
-        new = int(op['new'])
+        new = int(op['new']) if not op.get('npid') else np.int64(op['new'])
         if new in g.edges:
             return self._rewrite(op, o, lambda: g.rename_edge_id(cur, new), dict(o.poly), f'rename_edge_id({cur},{new})', expect_exc=ValueError)
         return self._rewrite(op, o, lambda: g.rename_edge_id(cur, new), dict(o.poly), f'rename_edge_id({cur},{new})')
@@ -827,7 +869,15 @@ class GRSession(SessionBase):
         want_map = bool(op.get('nid_map'))
         qd_arg = np.array(self.qd, dtype=int)
         om_before = {k: v.tobytes() for k, v in self.opmap.items()}
-        snap, mpo, exc = self.guarded(op, lambda: ptn.MPO.from_opgraph(qd_arg, g, self.opmap, compute_nid_map=want_map), ('C05',))
+        omrep = op.get('opmap_rep')
+        opmap_arg = self.opmap
+        if omrep == 'lazy':
+            opmap_arg = LazyOps(self.opmap)          # a mapping that produces its operators on access
+            self.probe('operator_map_lazy_mapping')
+        elif omrep == 'matrix':
+            opmap_arg = {k: np.asmatrix(v) for k, v in self.opmap.items()}     # array subclass with its own '*'
+            self.probe('operator_map_np_matrix')
+        snap, mpo, exc = self.guarded(op, lambda: ptn.MPO.from_opgraph(qd_arg, g, opmap_arg, compute_nid_map=want_map), ('C05',))
         self.bystanders_unchanged(snap, set(), extra_props=())
         self.check({k: v.tobytes() for k, v in self.opmap.items()} == om_before, 'C19', 'opmap_modified', 'from_opgraph modified the operator map')
         if exc is not None:
@@ -876,7 +926,7 @@ class GRSession(SessionBase):
         qdb = qd_arg.tobytes()
         for a in list(mpo.A) + [mpo.qd] + list(mpo.qD):
             if isinstance(a, np.ndarray) and a.flags.writeable:
-                a[...] = a * 3 + 7 if not np.issubdtype(a.dtype, np.integer) else a + 7919
+                a[...] = a * 3 + 7 if not np.issubdtype(a.dtype, np.integer) else a + (7919 if a.dtype.itemsize >= 4 else 37)
         self.check(graph_dump(g) == gd and {k: v.tobytes() for k, v in self.opmap.items()} == om_before and qd_arg.tobytes() == qdb,
                    'C19', 'result_aliases_argument', 'writing into the MPO changed the graph, the operator map or the qd argument')
         return 'ok'
